@@ -26,6 +26,14 @@
 #include "srv_util.hpp"
 #include <nstd/Socket/Server.hpp>
 #include <nstd/Socket/Socket.hpp>
+#ifndef VERIF_NO_PRIVATE
+#define SOCK_FD(sockref) ((sockref).s)
+#define SOCK_TAKE_FD(sockref, out) do { (out) = (sockref).s; (sockref).s = -1; } while (0)
+#else   // fallback flavour: public API only
+#define SOCK_FD(sockref) ((int)(sockref).getFileDescriptor())
+#define SOCK_TAKE_FD(sockref, out) do { (out) = dup((int)(sockref).getFileDescriptor()); (sockref).close(); } while (0)
+#endif
+
 
 using namespace vh;
 namespace ns = netshim;
@@ -571,7 +579,7 @@ static Cm* addClient(int id) {
   setctx("Server.pair");
   m->c = g_srv->pair(m->cb, peer);
   if (!m->c) harnessBug("Server::pair failed: %s", strerror(errno));
-  m->pfd = peer.s; peer.s = -1;
+  SOCK_TAKE_FD(peer, m->pfd);
   m->fd = (int)m->c->getSocket().getFileDescriptor();
   su::setNonBlock(m->pfd);
   if (g_kernel) { int v = 1; setsockopt(m->pfd, SOL_SOCKET, SO_RCVBUF, &v, sizeof v); }
@@ -676,7 +684,7 @@ static Cm* freshPhase(Rng& r, int origin, int act, long s0, long s1) {
     uint16_t lport = 0;
     for (int attempt = 0; ; ++attempt) {
       setctx("Server.listen"); f.l = g_srv->listen(Socket::loopbackAddress, 0, g_lcb); setctx("driver");
-      if (f.l) { f.sfd = ((Socket*)(void*)f.l)->s; lport = su::localPort(f.sfd); }
+      if (f.l) { f.sfd = SOCK_FD(*(Socket*)(void*)f.l); lport = su::localPort(f.sfd); }
       if (f.l && (f.rawFd = su::rawConnect(lport)) >= 0) break;
       if (f.l) { g_srv->remove(*f.l); f.l = 0; }
       if (attempt >= 200) harnessBug("cannot set up a loopback listener with a raw connection: %s", strerror(errno));
@@ -688,7 +696,7 @@ static Cm* freshPhase(Rng& r, int origin, int act, long s0, long s1) {
     if (g_rawListen < 0 && (g_rawListen = su::rawListener(&g_rawPort)) < 0) harnessBug("cannot create the raw loopback listener: %s", strerror(errno));
     setctx("Server.connect"); f.e = g_srv->connect(Socket::loopbackAddress, g_rawPort, g_ecb); setctx("driver");
     if (!f.e) harnessBug("Server::connect to the raw loopback listener failed: %s", strerror(errno));
-    f.sfd = ((Socket*)(void*)f.e)->s; f.rawPort = su::localPort(f.sfd);
+    f.sfd = SOCK_FD(*(Socket*)(void*)f.e); f.rawPort = su::localPort(f.sfd);
     hist.addf("connect(127.0.0.1:%u) from port %u\n", (unsigned)g_rawPort, (unsigned)f.rawPort);
   }
   f.armed = true;
